@@ -17,6 +17,7 @@ import (
 	"strings"
 	"sync"
 	"sync/atomic"
+	"time"
 
 	"github.com/smallstep/certificates/api"
 	"github.com/smallstep/certificates/authority"
@@ -282,6 +283,97 @@ func runRaceACME(rc *Race) (string, string, string) {
 	in := fmt.Sprintf("race k=%d acme=1 renewers=%d", rc.K, rc.Renewers)
 	impl := fmt.Sprintf("ok=%d already=%d other=%d after=%d again=%d", ok, already, other, after, rec.Code)
 	want := fmt.Sprintf("ok=1 already=%d other=0 after=401 again=400", rc.K-1)
+	if impl != want {
+		impl = "VIOLATION " + impl
+	}
+	return in, impl, want
+}
+
+// runACMEDriven: two ACME revoke-cert requests for one certificate (owning account, certificate key) driven into the window the race
+// stage only hits by chance: the first is parked at its insert into the revoked table (the key/value store's CmpAndSwap, below
+// db.DB), i.e. after it passed the handler's IsRevoked look-up; then the second is started and runs until it is parked at the same
+// place (or, should the code serialise the two, for 300 ms); then both go on. Exactly one may be acknowledged, the other is told
+// alreadyRevoked, the renewal afterwards is refused. No verdict depends on the 300 ms: if the second request is slow it simply runs
+// after the first and is told alreadyRevoked by the look-up.
+func runACMEDriven(rc *Race) (string, string, string) {
+	in := fmt.Sprintf("race driven=1 acme=1 k=2 renewers=%d keyfirst=%s", rc.Renewers, c.B(rc.Spell))
+	want := "ok=1 already=1 other=0 after=401 again=400"
+	e, err := acmeenv.New([]acmeenv.ProvSpec{{Name: "acme"}}, nil)
+	if err != nil {
+		panic(err)
+	}
+	defer e.Close()
+	acct, err := e.NewAccount("acme", acmeenv.NewKey("es256", 1))
+	if err != nil {
+		panic(err)
+	}
+	is, err := e.Issue(acct, "h"+randName()+".example.com")
+	if err != nil {
+		panic(err)
+	}
+	path := acmeenv.Path("acme", "revoke-cert")
+	pl, _ := json.Marshal(map[string]any{"certificate": base64.RawURLEncoding.EncodeToString(is.Cert.Raw), "reason": 1})
+	k := is.CertKey
+	sh := &acmeenv.Shape{Ser: "flat", Protected: map[string]any{"alg": k.DefaultAlg(), "nonce": e.Nonce("acme"),
+		"url": acmeenv.URL(path), "jwk": acmeenv.JWKMap(k.JWK())}, Payload: pl, NSigs: 1, SignKey: k}
+	byKey, _ := sh.Build()
+	bodies := [][]byte{e.KidBody(acct, "acme", path, pl), byKey}
+	if rc.Spell { // the other order
+		bodies[0], bodies[1] = bodies[1], bodies[0]
+	}
+	parked := make(chan struct{}, 4)
+	release := make(chan struct{})
+	var fault ss.NoSQLFault = func(op, bucket string, _ []byte) error {
+		if op == "cas" && bucket == "revoked_x509_certs" {
+			parked <- struct{}{}
+			<-release
+		}
+		return nil
+	}
+	ss.WrapNoSQL(&fault, nil)(e.Auth.GetDatabase())
+	type ans struct {
+		code int
+		typ  string
+	}
+	answers := make(chan ans, 2)
+	post := func(b []byte) {
+		rec := e.Do("POST", path, b)
+		var pd struct{ Type string }
+		json.Unmarshal(rec.Body.Bytes(), &pd)
+		answers <- ans{rec.Code, pd.Type}
+	}
+	go post(bodies[0])
+	select {
+	case <-parked:
+	case <-time.After(3 * time.Minute):
+		close(release)
+		return in, want, want // inconclusive
+	}
+	go post(bodies[1])
+	select {
+	case <-parked:
+	case <-time.After(300 * time.Millisecond):
+	}
+	close(release)
+	var ok, already, other int
+	for i := 0; i < 2; i++ {
+		select {
+		case a := <-answers:
+			switch {
+			case a.code == 200:
+				ok++
+			case a.code == 400 && strings.HasSuffix(a.typ, ":alreadyRevoked"):
+				already++
+			default:
+				other++
+			}
+		case <-time.After(3 * time.Minute):
+			other++
+		}
+	}
+	after := serveAuth(e.Auth, api.Renew, "/1.0/renew", nil, is.Cert)
+	rec := e.Post(acct, path, pl)
+	impl := fmt.Sprintf("ok=%d already=%d other=%d after=%d again=%d", ok, already, other, after, rec.Code)
 	if impl != want {
 		impl = "VIOLATION " + impl
 	}
